@@ -218,6 +218,10 @@ func genPath(r *rng, t *tree, want byte) string {
 			base = "/" + genName(r) + "/" + genName(r)
 		}
 	}
+	if r.chance(7) {
+		// generated-image views of directories (and of things that are not directories)
+		return r.picks("/***DVD***", "/***PS3***", "/***DVD***", "***DVD***") + base
+	}
 	switch r.intn(14) {
 	case 0:
 		return base + "/"
@@ -467,6 +471,15 @@ func connStream(o *out, r *rng, trees, sessionsPerTree, reqsPerSession int, writ
 					mp = 100
 				}
 				reqs := genSession(r, t, 1+r.intn(reqsPerSession), write, mp)
+				if si == 0 && !write {
+					// fixed scenario: a generated-image path is not a directory; enumerating after
+					// the refused OPEN_DIR must give the end marker at once
+					ds := t.pathsOf('d')
+					d := ds[r.intn(len(ds))]
+					reqs = []creq{{op: opOpenDir, path: d}, {op: opOpenDir, path: "/***DVD***" + d}, {op: opReadDirEntry},
+						{op: opReadDir}, {op: opReadDirEntryV2}, {op: opOpenFile, path: "/***DVD***" + d}, {op: opReadFile, a: 4096, b: 32768},
+						{op: opReadFileCritical, a: 100, b: 2048 * 16}, {op: opStatFile, path: "/***DVD***" + d}}
+				}
 				line := env.runSession(reqs, true)
 				key := ""
 				if len(reqs) >= 2 {
